@@ -3,6 +3,17 @@ From Coq Require Import List Arith Bool Lia.
 From TC.Model Require Import CacheConc.
 Import ListNotations.
 
+Ltac inv H := inversion H; subst; clear H.
+(* case-split every match / if that occurs in a hypothesis, then open the resulting [Some _ = Some _] *)
+Ltac break_all :=
+  repeat match goal with
+         | H' : context [match ?x with _ => _ end] |- _ => destruct x eqn:?; try discriminate
+         | H' : context [if ?x then _ else _] |- _ => destruct x eqn:?; try discriminate
+         end;
+  repeat match goal with
+         | H' : Some _ = Some _ |- _ => inversion H'; subst; clear H'
+         end.
+
 Lemma upd_length {A} n (x : A) l : length (upd n x l) = length l.
 Proof. revert n; induction l as [|y t IH]; intros [|n]; simpl; auto. Qed.
 
